@@ -135,7 +135,8 @@ func H_C13_Tree(v *sym.V) {
 	// %+v shows every branch
 	p := fmt.Sprintf("%+v", errors.Formattable(e))
 	for _, b := range bs {
-		v.Assert("plusv-shows-branch", sym.Contains(p, b.Text))
+		// every branch has entries of its own: the message of its root cause is displayed
+		v.Assert("plusv-shows-branch", sym.Contains(p, errors.UnwrapAll(b.Err).Error()))
 	}
 }
 
